@@ -175,6 +175,11 @@ class C15(HistoryCampaign):
         nzero = rnd.choice([0, 0, 1, 2])
         for _ in range(nzero):
             parts.insert(rnd.randint(0, len(parts)), 0)
+        if rnd.random() < 0.06:
+            # nothing but zero-length calls: the header and the step-0 observer call are all there is to see
+            n = 0
+            parts = [0] * rnd.randint(1, 2)
+            sc["steps"] = [{"n": 0}]
         sc["segments"] = [{"entry": rnd.choice(["run", "srun", "irun"]), "n": k} for k in parts]
         if rnd.random() < 0.2:
             for s in sc["segments"]:
